@@ -309,14 +309,14 @@ def check(v):
     return True
 
 
-def esc(c0: int, c1: int, c2: int, c3: int) -> bool:
+def esc(c0: int, c1: int, c2: int, c3: int, c4: int = 0) -> bool:
     """
-    pre: 0 <= c0 < 0x110000 and 0 <= c1 < 0x110000 and 0 <= c2 < 0x110000 and 0 <= c3 < 0x110000
+    pre: 0 <= c0 < 0x110000 and 0 <= c1 < 0x110000 and 0 <= c2 < 0x110000 and 0 <= c3 < 0x110000 and 0 <= c4 < 0x110000
     post: _
     """
     k = CFG.get('k', 1)
     v = ''
-    cs = (c0, c1, c2, c3)
+    cs = (c0, c1, c2, c3, c4)
     if CFG.get('kind') == 'int':
         v = c0 - c1                          # any int in (-0x110000, 0x110000)
     else:
